@@ -33,7 +33,7 @@ const (
 
 func TestMain(m *testing.M) {
 	_ = flag.Set("logtostderr", "true") // glog: no log files in /tmp
-	vlib.Rule("C02: needle records for versions 2 and 3 with every subset of the flag bits, name/mime lengths {0,1,7,8,9,254,255}, data lengths {0..17,4095..4097,random<=8KiB}, pairs {0,1,2,100,65535} bytes, TTL none/all units, 5-byte last-modified range, appended in batches of 1..12 into a DiskFile behind a super block; read back with ReadData, walked with ScanVolumeFileFrom; every bit of every data byte flipped for sampled records; mutated record bytes fed to ReadData. One evaluation = one record (round trip), one flipped record, or one hostile byte string. Non-trivial = record with >=2 optional fields present or a boundary length (data 0/1/7/8/9/4095..4097, name/mime 254/255, pairs 65535); a flipped/hostile input is non-trivial when it reaches the body parser. Distinct = distinct canonical record description.")
+	vlib.Rule("C02: needle records for versions 2 and 3 with every subset of the flag bits, name/mime lengths {0,1,7,8,9,254,255}, data lengths {0..17,4095..4097,random<=8KiB}, pairs {0,1,2,100,65535} bytes, TTL none/all units, 5-byte last-modified range, appended in batches of 1..12 into a DiskFile behind a super block; read back with ReadData (compared immediately, and again after all records of the batch were decoded forward, backward and in a generated order while every decoded needle is retained), walked with ScanVolumeFileFrom; every bit of every data byte flipped for sampled records; mutated record bytes fed to ReadData. One evaluation = one record (round trip), one flipped record, or one hostile byte string. Non-trivial = record with >=2 optional fields present or a boundary length (data 0/1/7/8/9/4095..4097, name/mime 254/255, pairs 65535); a flipped/hostile input is non-trivial when it reaches the body parser. Distinct = distinct canonical record description.")
 	vlib.Assume("C02: the reference layout (header 16B = cookie,id,size; body = dataSize,data,flags,[nameSize,name],[mimeSize,mime],[lastModified 5B],[ttl 2B],[pairsSize,pairs]; crc 4B; v3 timestamp 8B; padding to 8) is the harness' reading of needle_read_write.go's format comment and is trusted; callers' preconditions are respected (flag set <=> field supplied, HasTtl => Ttl != nil, PairsSize == len(Pairs), Checksum == CRC(data), name/mime < 256 B, pairs < 64 KiB).")
 	vlib.Main(m)
 }
@@ -414,6 +414,23 @@ func appendAndCheck(t failer, vf *volFile, batch []*blob) []written {
 			t.Fatalf("record %d {%s}: decoded checksum %x != crc(data) %x", i, w.b, m.Checksum, needle.NewCRC(w.b.data))
 		}
 	}
+	// (2b) a decoded needle stays what it is while other records are decoded:
+	// callers keep needles across reads (the volume server writes the response from
+	// the needle it read, isFileUnchanged / verifyNeedleIntegrity / scanners hold one
+	// needle while reading the next). Decode ALL records first - forward, then
+	// backward with every other record twice, so that both a larger and a smaller
+	// record follow each record - and only then compare each retained needle.
+	order := make([]int, 0, 3*len(ws))
+	for i := range ws {
+		order = append(order, i)
+	}
+	for i := len(ws) - 1; i >= 0; i-- {
+		order = append(order, i)
+		if i%2 == 0 {
+			order = append(order, i)
+		}
+	}
+	retainedDecodeCheck(t, vf, ws, order)
 	// (3) a scan visits exactly the written records in order
 	for _, readBody := range []bool{true, false} {
 		sc := &scanner{readBody: readBody}
@@ -442,6 +459,31 @@ func appendAndCheck(t failer, vf *volFile, batch []*blob) []written {
 		}
 	}
 	return ws
+}
+
+// retainedDecodeCheck decodes ws[order[0]], ws[order[1]], ... with ReadData,
+// keeps every decoded needle, and compares all of them with their originals only
+// after the last decode.
+func retainedDecodeCheck(t failer, vf *volFile, ws []written, order []int) {
+	ver := vf.ver
+	held := make([]*needle.Needle, len(order))
+	for j, i := range order {
+		w := ws[i]
+		m := new(needle.Needle)
+		if err := m.ReadData(vf.df, w.offset, w.size, ver); err != nil {
+			t.Fatalf("record %d {%s} at %d size %d: ReadData (decode %d of %v): %v", i, w.b, w.offset, w.size, j, order, err)
+		}
+		held[j] = m
+	}
+	for j, i := range order {
+		w, m := ws[i], held[j]
+		if d := diff(w.b.norm(ver), decoded(m)); d != "" {
+			t.Fatalf("record %d {%s} (v%d), decode %d in read order %v: after the later records were decoded the needle no longer equals what was written: %s", i, w.b, ver, j, order, d)
+		}
+		if m.Size != w.size || len(w.b.data) > 0 && (int(m.DataSize) != len(w.b.data) || m.Checksum != needle.NewCRC(w.b.data) || m.Checksum != needle.NewCRC(m.Data)) {
+			t.Fatalf("record %d {%s} (v%d), decode %d in read order %v: retained needle has Size %d DataSize %d checksum %x (crc of its data %x, of the written data %x)", i, w.b, ver, j, order, m.Size, m.DataSize, m.Checksum, needle.NewCRC(m.Data), needle.NewCRC(w.b.data))
+		}
+	}
 }
 
 func describe(batch []*blob) string {
@@ -508,7 +550,11 @@ func TestPropRoundTrip(t *testing.T) {
 		}
 		vf := newVolFile(t, ver)
 		defer vf.close()
-		appendAndCheck(t, vf, batch)
+		ws := appendAndCheck(t, vf, batch)
+		// a generated read order (records may repeat), compared after the last decode
+		order := rapid.SliceOfN(rapid.IntRange(0, k-1), 2, 16).Draw(t, "readOrder")
+		retainedDecodeCheck(t, vf, ws, order)
+		vlib.Class("retained-decode-order")
 		vlib.Class("scan-batch")
 		for _, b := range batch {
 			vlib.Case(fmt.Sprintf("v%d %s", ver, b), b.nontrivial(), b.classes(ver)...)
